@@ -1,30 +1,18 @@
-(* Model driver: reads one case per line from the file given as argv.(2), for the property
-   group argv.(1), and prints the model's observable line for each case. *)
-open Clemens_model
-open Conv
-
-let c08 (toks : string list) : string =
-  match List.map int_of_string toks with
-  | [black; plys; wtime; btime; winc; binc; mtg; movetime] ->
-    let sp = { gp_wtime = z_of_int wtime; gp_btime = z_of_int btime; gp_winc = z_of_int winc;
-               gp_binc = z_of_int binc; gp_movestogo = z_of_int mtg; gp_movetime = z_of_int movetime } in
-    string_of_int (int_of_z (m_calc_time (black = 1) (z_of_int plys) sp))
-  | _ -> failwith "c08: bad case"
-
-let handlers : (string * (string list -> string)) list = [
-  ("C08", c08);
-]
-
+(* Model driver: driver <key> <cases file> prints the model's observable line for each case line.
+   Handlers live in h_*.ml and register themselves in Reg. *)
 let () =
-  let prop = Sys.argv.(1) in
-  let h = try List.assoc prop handlers with Not_found -> failwith ("unknown property " ^ prop) in
+  let key = Sys.argv.(1) in
+  let h = try Hashtbl.find Reg.handlers key with Not_found -> failwith ("unknown key " ^ key) in
   let ic = open_in Sys.argv.(2) in
   let out = Buffer.create 65536 in
   (try
      while true do
        let line = input_line ic in
-       let r = try h (split_ws line) with e -> "MODEL-EXCEPTION " ^ Printexc.to_string e in
-       Buffer.add_string out r; Buffer.add_char out '\n'
+       let r = try h line with
+         | Stack_overflow -> "MODEL-EXCEPTION stack overflow"
+         | e -> "MODEL-EXCEPTION " ^ Printexc.to_string e in
+       Buffer.add_string out r; Buffer.add_char out '\n';
+       if Buffer.length out > 1 lsl 20 then (print_string (Buffer.contents out); Buffer.clear out)
      done
    with End_of_file -> ());
   print_string (Buffer.contents out)
